@@ -479,7 +479,14 @@ impl ApplicationHeader {
                     {
                         Some(monitoring.to_string())
                     } else {
-                        None
+                        // An 18th character that is not a monitoring code cannot be dropped silently
+                        return Err(ParseError::InvalidBlockStructure {
+                            block: "2".to_string(),
+                            message: format!(
+                                "Invalid delivery monitoring character '{}' in input Block 2",
+                                monitoring.escape_default()
+                            ),
+                        });
                     }
                 } else {
                     None
@@ -542,7 +549,17 @@ impl ApplicationHeader {
                 let output_time = block2[42..46].to_string(); // HHMM
 
                 let priority = if block2.len() >= 47 {
-                    Some(block2[46..47].to_string())
+                    let priority = &block2[46..47];
+                    if !priority.chars().all(|c| c.is_ascii_alphabetic()) {
+                        return Err(ParseError::InvalidBlockStructure {
+                            block: "2".to_string(),
+                            message: format!(
+                                "Invalid priority character '{}' in output Block 2",
+                                priority.escape_default()
+                            ),
+                        });
+                    }
+                    Some(priority.to_string())
                 } else {
                     None
                 };
